@@ -47,6 +47,36 @@ def rewire_same_size(rnd, c):
     return c
 
 
+def rewire_against_order(rnd, c):
+    """Same sizes again, but the new driver is a signal that came LATER than the reader in the order yielded so far and
+    does not depend on it: the previous order is no longer a valid order of the rewired graph."""
+    from kyupy.circuit import Line
+    order = [n for n in c.topological_order()]
+    pos = {n.index: k for k, n in enumerate(order)}
+    if len(pos) != len(c.nodes):
+        return None
+    cand = [l for l in c.lines if l.reader.kind not in ('__fork__', 'output') and nets.seq_flag(l.reader.kind) == 0 and l.driver.kind == '__fork__']
+    rnd.shuffle(cand)
+    for l in cand:
+        a = l.reader
+        seen, stack = {a.index}, [a]
+        while stack:                    # everything that depends on a
+            n = stack.pop()
+            for o in n.outs:
+                if o is not None and o.reader.index not in seen:
+                    seen.add(o.reader.index)
+                    stack.append(o.reader)
+        late = [f for f in c.nodes if f.kind == '__fork__' and f.index not in seen and pos[f.index] > pos[a.index] and f is not l.driver
+                and len(f.ins) > 0 and f.ins[0] is not None]
+        if late:
+            f = rnd.choice(late)
+            pin = l.reader_pin
+            l.remove()
+            Line(c, f, (a, pin))
+            return c
+    return None
+
+
 def traversal_record(rnd, c, nfan=3):
     st = project(c)
     st['seq'] = [nets.seq_flag(nd['kind']) for nd in st['nodes']]
@@ -64,6 +94,18 @@ def traversal_record(rnd, c, nfan=3):
             k = rnd.randint(1, 3)
             orig = rnd.sample(list(c.nodes), min(k, len(c.nodes)))
             rec['fan'].append(dict(orig=[int(n.index) for n in orig], got=[int(n.index) for n in c.fanin(orig)]))
+        # two cones iterated in lock-step (both generators alive at once): each must still be the cone of its own origins
+        o1, o2 = [rnd.sample(list(c.nodes), min(rnd.randint(1, 2), len(c.nodes))) for _ in range(2)]
+        g1, g2 = c.fanin(o1), c.fanin(o2)
+        r1, r2 = [], []
+        while True:
+            a, b = next(g1, None), next(g2, None)
+            if a is None and b is None:
+                break
+            if a is not None: r1.append(int(a.index))
+            if b is not None: r2.append(int(b.index))
+        rec['fan'].append(dict(orig=[int(n.index) for n in o1], got=r1))
+        rec['fan'].append(dict(orig=[int(n.index) for n in o2], got=r2))
     except Exception as e:
         rec['raised'] = True
         rec['err'] = repr(e)[:200]
@@ -225,8 +267,9 @@ def main(tier=None, replay=None):
         recs.append(traversal_record(rnd, c))
         if rnd.random() < 0.35:
             # history: the SAME object traversed again after a rewiring that keeps the numbers of nodes and lines
-            c2 = rewire_same_size(rnd, c)
+            c2 = rewire_against_order(rnd, c) if rnd.random() < 0.6 else rewire_same_size(rnd, c)
             if c2 is not None:
+                ck.count('rewired-same-size')
                 inputs.append(gen.circuit_state(c2))
                 recs.append(traversal_record(rnd, c2))
     # scale: a fork with more than 256 branches (visit counters and positions beyond 8 bits)
@@ -262,7 +305,7 @@ def main(tier=None, replay=None):
             ck.count('locs-again-after-swap')
         g = x['got']
         ck.count('locs-none' if g == [-1] else 'locs-single' if len(g) == 1 else 'locs-nested' if g[:2] == [-2, -2] else 'locs-bus')
-    ck.need_cover(['circuits-with-fanout-over-256', 'locs-again-after-swap', 'circuits-with-open-pins', 'circuits-with-state', 'locs-nested', 'locs-bus', 'locs-none', 'locs-single'])
+    ck.need_cover(['rewired-same-size', 'circuits-with-fanout-over-256', 'locs-again-after-swap', 'circuits-with-open-pins', 'circuits-with-state', 'locs-nested', 'locs-bus', 'locs-none', 'locs-single'])
     ck.sample(dict(topological_order=recs[0]['topo'][:12], levels=recs[0]['lvl'][:12], fanin=recs[0]['fan'][:1]))
     ck.sample(dict(lookup=lrecs[0]['what'], returned=lrecs[0]['got']))
     ck.assumptions += ['circuits are acyclic once cut at state elements; forks have one driver', 'fan-in: a non-origin state element feeding the cone may or may not be yielded (DESIGN §5.2)',
